@@ -16,3 +16,14 @@ DESTROYS_T_NORMAL = {
     "slice_take": "drops the by-value range argument R (not an element)",
     "slice_take_mut": "drops the by-value range argument R (not an element)",
 }
+
+# entries of the table above that must be found in every configuration in which the function
+# exists (the others are arms that a cfg may compile differently, e.g. `slice_take` under
+# `unstable` forwards its range argument instead of dropping it)
+DESTROYS_T_REQUIRED = [
+    "<CircularBuffer::drop_range::Dropper<T> as Drop>::drop",
+    "<<Drain<N, T> as Drop>::drop::Dropper<T> as Drop>::drop",
+    "<CircularBuffer::extend_from_slice::write_uninit_slice_cloned::Guard<T> as Drop>::drop",
+    "<CircularBuffer<N, T> as From<[T; M]>>::from",
+    "<Drain<N, T> as Drop>::drop",
+]
